@@ -1,3 +1,7 @@
 import Proofs.RSGeneric
 import Proofs.RSField
 import Proofs.Stream
+import Proofs.Mask
+import Proofs.Modes
+import Proofs.Roundtrip
+import Proofs.Sizing
